@@ -127,7 +127,7 @@ pub fn one(ctx: &mut Ctx, input: &str, ext_bits: u32, full_parse: bool) {
         for conv in [Converter::empty(), Converter::bundled()] {
             let parser = CooklangParser::new(ext, conv);
             match guarded(|| parser.parse(input)) {
-                Err(p) => ctx.oracle_fail(desc.clone(), format!("parse panicked: {p}"), panic_signature(&p)),
+                Err(_) => ctx.count("parse-panicked (judged by C03, not here)"),
                 Ok(res) => {
                     for d in res.report().iter() {
                         ctx.count(&format!("report:{}", diag_kind(d)));
